@@ -26,8 +26,9 @@ type Prog struct {
 	GOARCH  string
 	Sizes   types.Sizes
 
-	ssaProg *ssa.Program
-	ssaPkgs map[string]*ssa.Package
+	ssaProg  *ssa.Program
+	ssaPkgs  map[string]*ssa.Package
+	fileInfo map[*token.File]*types.Info
 
 	funcDecls map[*types.Func]*ast.FuncDecl
 	declPkg   map[*ast.FuncDecl]*packages.Package
@@ -343,4 +344,22 @@ func FullName(f *types.Func) string {
 		return f.Pkg().Path() + "." + name
 	}
 	return name
+}
+
+// InfoAt: the types.Info of the repository package whose syntax contains pos.
+func (p *Prog) InfoAt(pos token.Pos) *types.Info {
+	if p.fileInfo == nil {
+		p.fileInfo = map[*token.File]*types.Info{}
+		for _, pkg := range p.Pkgs {
+			for _, f := range pkg.Syntax {
+				if tf := p.Fset.File(f.Pos()); tf != nil {
+					p.fileInfo[tf] = pkg.TypesInfo
+				}
+			}
+		}
+	}
+	if tf := p.Fset.File(pos); tf != nil {
+		return p.fileInfo[tf]
+	}
+	return nil
 }
